@@ -123,12 +123,22 @@ Init == store = Empty /\ job = Idle /\ saved = <<>> /\ view = Empty
 
 Fresh(base, ext) == \A k \in 1..Len(saved) : saved[k].base # base \/ saved[k].ext # ext
 
+\* Saving again to the same base.db replaces the database file: its tables are exactly those of
+\* the catalogue saved last ("sqlite output holds the same rows").  (Per-type files of the other
+\* formats are only ever written for types present in the catalogue; saving twice to the same
+\* name is not modelled for them.)
+IsDbTableOf(f, base) == \E t \in TypeSet : f = FileOf(base, "db", t)
+
 BeginSave(base, ext, prefix, cat) ==
     /\ job = Idle
-    /\ Fresh(base, ext)
+    /\ (Fresh(base, ext) \/ ext = "db")
     /\ job' = [state |-> "saving", base |-> base, ext |-> ext, prefix |-> prefix,
                cat |-> cat, done |-> 0]
-    /\ UNCHANGED <<store, saved, view>>
+    /\ IF Fresh(base, ext)
+       THEN UNCHANGED <<store, saved, view>>
+       ELSE /\ store' = [f \in {g \in DOMAIN store : ~IsDbTableOf(g, base)} |-> store[f]]
+            /\ view' = [f \in {g \in DOMAIN view : ~IsDbTableOf(g, base)} |-> view[f]]
+            /\ saved' = SelectSeq(saved, LAMBDA s : ~(s.base = base /\ s.ext = ext))
 
 \* the store after one more row has been written
 Put(st, s, row) ==
